@@ -622,3 +622,43 @@ Theorem C02_lock_table_finishes_migration_refinement :
   lf_lt_mlf c (rehash_with_workers c hash t) = lf_lt_mlf c t.
 Proof. exact rww_lgood. Qed.
 Print Assumptions C02_lock_table_finishes_migration_refinement.
+
+(* ---- fuel is never the reason for an outcome (NoFuel.v) ---- *)
+From LC Require Import NoFuel.
+Theorem C02_found_path_always_moves :
+  forall (c : config) (hash : N -> N),
+  cfg_ok c ->
+  forall (mode : bool) (t : table) (hp i1 i2 : N) (t1 : table) (path : list cuckoo_record) (depth : N),
+  all_migrated t ->
+  tags_ok hash (cur t) ->
+  cuckoopath_search c hash mode t hp i1 i2 = (t1, Some (path, depth)) ->
+  snd (cuckoopath_move c hash mode t1 path depth i1 i2) = true.
+Proof. exact search_then_move. Qed.
+Print Assumptions C02_found_path_always_moves.
+
+Theorem C02_found_path_always_moves_with_pending_stripes :
+  forall (c : config) (hash : N -> N),
+  cfg_ok c ->
+  forall (hp i1 i2 : N) (t t1 : table) (path : list cuckoo_record) (depth : N),
+  wf c hash t ->
+  cuckoopath_search c hash false t hp i1 i2 = (t1, Some (path, depth)) ->
+  snd (cuckoopath_move c hash false t1 path depth i1 i2) = true.
+Proof. exact lazy_search_then_move. Qed.
+Print Assumptions C02_found_path_always_moves_with_pending_stripes.
+
+Theorem C02_insert_loop_fuel_monotone :
+  forall (c : config) (hash : N -> N) (fd fd' : bool -> table -> N -> rres) (mode : bool) (m : nat),
+  fd_le fd fd' ->
+  forall (n : nat) (t : table) (k i1 i2 : N),
+  snd (cuckoo_insert_loop c hash fd mode t k i1 i2 n) <> IL_exn EOutOfFuel ->
+  cuckoo_insert_loop c hash fd' mode t k i1 i2 (n + m) = cuckoo_insert_loop c hash fd mode t k i1 i2 n.
+Proof. exact cuckoo_insert_loop_mono. Qed.
+Print Assumptions C02_insert_loop_fuel_monotone.
+
+Theorem C02_present_key_never_throws :
+  forall (c : config) (hash : N -> N),
+  cfg_ok c ->
+  forall (mode : bool) (t : table) (k : N) (v : Z) (g : Z -> bool -> option (Z * bool)),
+  good c hash t -> key_in (cur t) k -> forall e : exn, snd (uprase_gen c hash mode t k v g) <> inl e.
+Proof. exact uprase_gen_present_no_exn. Qed.
+Print Assumptions C02_present_key_never_throws.
